@@ -469,9 +469,18 @@ def _judge(mod, cases, findings):
     for c in cases:
         if c.line is not None and c.model != c.impl:
             tie_bad.append(c)
-        reason = mod.verdict(c)
+        try:
+            reason = mod.verdict(c)
+        except Exception as e:  # pylint: disable=broad-except
+            # the observation has a shape the oracle does not expect at all (only seen on changed trees): that is a
+            # failing input, not a reason to crash the check
+            reason = f"the oracle cannot judge this observation ({type(e).__name__}: {str(e)[:120]}): the implementation's " \
+                     f"behaviour is outside everything the oracle expects"
         if reason:
-            sig = mod.classify(c, reason)
+            try:
+                sig = mod.classify(c, reason)
+            except Exception as e:  # pylint: disable=broad-except
+                sig = f"unclassifiable:{type(e).__name__}"
             entry = next((e for e in findings if e["signature"] == sig), None)
             if entry:
                 known.append((c, reason, entry))
